@@ -49,7 +49,7 @@ class WaitGateWithUnit(cirq.WaitGate):
             raise ValueError('Waiting on an empty set of qubits.')
         if num_qubits != len(qid_shape):
             raise ValueError('len(qid_shape) != num_qubits')
-        self._qid_shape = qid_shape
+        self._qid_shape = tuple(qid_shape)
 
     @property
     def duration(self) -> sympy.Symbol | cirq.Duration:
